@@ -30,14 +30,14 @@ def sample_records(records, verdicts, k=4):
 
 
 # =================================================================================== C01 / C08
-def rule_records(ctx, nprog, depth):
-    # systematic families (exhaustive in thorough, strided sample in quick) + seeded random programs
+def rule_records(ctx, nprog, depth, thin=1):
+    # systematic families (exhaustive in thorough - every `thin`-th for the costlier C08 -, strided sample in quick) + seeded random programs
     q = ctx.quick()
     cases = V.tlc_generate(ctx, "sysrule", 200 if q else 1476, depth, {"GEN_STRIDE": 181 if q else 1})
     if q:  # the small categories (double unary minus, unary minus over an operation) sit at the low indices
         cases += V.tlc_generate(ctx, "sysnest", 24, depth, {"GEN_STRIDE": 1, "VERIF_SEED": 0})
-    cases += V.tlc_generate(ctx, "sysnest", 110 if q else 6003, depth, {"GEN_STRIDE": 1009 if q else 1})
-    cases += V.tlc_generate(ctx, "sysnames", 110 if q else 3200, depth, {"GEN_STRIDE": 1013 if q else 1})
+    cases += V.tlc_generate(ctx, "sysnest", 110 if q else 6003 // thin, depth, {"GEN_STRIDE": 1009 if q else thin})
+    cases += V.tlc_generate(ctx, "sysnames", 110 if q else 3200 // thin, depth, {"GEN_STRIDE": 1013 if q else thin})
     cases += V.tlc_generate(ctx, "program", nprog, depth)
     for i, (name, text) in enumerate(V.repo_programs()):
         cases.append({"id": f"repo{i}", "prog": V.strip_comments(text), "origin": name})
@@ -67,10 +67,10 @@ TABLE_PROGRAMS = [
 ]
 
 
-def check_rules(ctx, prefix, nprog_q, nprog_t):
+def check_rules(ctx, prefix, nprog_q, nprog_t, thin=1):
     V.build()
     nprog = nprog_q if ctx.quick() else nprog_t
-    cases, recs = rule_records(ctx, nprog, 2 if ctx.quick() else 3)
+    cases, recs = rule_records(ctx, nprog, 2 if ctx.quick() else 3, thin)
     rules = [r for r in recs if r["kind"] == "rule"]
     panics = [r for r in recs if r["kind"] == "panic"]
     rejected = [r for r in recs if r["kind"] == "reject"]
@@ -119,7 +119,7 @@ def run_C01(ctx):
 
 
 def run_C08(ctx):
-    return check_rules(ctx, "C08", 50, 2500)
+    return check_rules(ctx, "C08", 50, 900, thin=3)
 
 
 # =================================================================================== formulas
